@@ -148,6 +148,10 @@ Norm(v) ==
 (* Palettes: two distinct non-null values per field type *)
 ErrV(k) == Desc(29, L(IF k = 1 THEN <<Sym(<<97,109,113,112,58,110,111,116,45,102,111,117,110,100>>)>>   \* amqp:not-found
                        ELSE <<Sym(<<120,58,121>>), Str(<<111,195,169>>), M(<<Sym(<<107>>), UI(7)>>)>>))
+(* nested composites: value 1 has every field set (a `multiple` field in its array form followed by the fields after it, a described
+   outcome inside a source inside an attach, ...), value 2 is sparse with a `multiple` field in its single-value form *)
+RECURSIVE Pal(_, _)
+FullOf(c) == Desc(c, L([i \in 1..Len(Schema[c].f) |-> Pal(Schema[c].f[i].ty, 1)]))
 Pal(ty, k) ==
   CASE ty = "string" -> IF k = 1 THEN Str(<<97>>) ELSE Str(<<113,195,169,226,130,172>>)
     [] ty = "symbol" -> IF k = 1 THEN Sym(<<80,76,65,73,78>>) ELSE Sym(<<120,58,121>>)
@@ -174,8 +178,8 @@ Pal(ty, k) ==
     [] ty = "filter" -> IF k = 1 THEN M(<<Sym(<<102>>), [t |-> "described", d |-> Sym(<<102,58,116>>), x |-> Str(<<97>>)]>>) ELSE M(<<>>)
     [] ty = "outcome" -> IF k = 1 THEN Desc(36, L(<<>>)) ELSE Desc(39, L(<<B(TRUE)>>))
     [] ty = "dstate" -> IF k = 1 THEN Desc(37, L(<<ErrV(2)>>)) ELSE Desc(35, L(<<UI(2), UL(9)>>))
-    [] ty = "source" -> IF k = 1 THEN Desc(40, L(<<Str(<<113>>)>>)) ELSE Desc(40, L(<<Null, UI(1), Null, UI(5), B(TRUE)>>))
-    [] ty = "target" -> IF k = 1 THEN Desc(41, L(<<Str(<<113>>)>>)) ELSE Desc(48, L(<<>>))
+    [] ty = "source" -> IF k = 1 THEN FullOf(40) ELSE Desc(40, L(<<Null, UI(1), Null, UI(5), B(TRUE), Null, Null, Null, Null, Sym(<<100>>)>>))
+    [] ty = "target" -> IF k = 1 THEN FullOf(41) ELSE Desc(48, L(<<>>))
     [] ty = "unsettled" -> IF k = 1 THEN M(<<Bin(<<1>>), Desc(36, L(<<>>))>>) ELSE M(<<Bin(<<1>>), Null, Bin(<<2,3>>), Desc(38, L(<<>>))>>)
     [] ty = "msgid" -> IF k = 1 THEN UL(5) ELSE Str(<<105,100>>)
     [] ty = "nullonly" -> Null
